@@ -150,13 +150,13 @@ prop('C05', opts={'abstract_fp': True},
      harnesses=[{'name': 'C05_' + fn, 'types': {'quick': conv_pairs(fn, 1), 'thorough': conv_pairs(fn, 0)},
                  'params': {'quick': {'MaxC': 2, 'MaxK': 2, 'Unaligned': 1}, 'thorough': {'MaxC': 2, 'MaxK': 2, 'Unaligned': 1}},
                  'covers': ['converted', 'untouched']} for fn in CONVS] +
-     [{'name': 'C05_' + fn, 'types': {'quick': [], 'thorough': conv_pairs(fn, 1)},
-       'params': {'thorough': {'MaxC': 3, 'MaxK': 2, 'Unaligned': 1}}} for fn in CONVS] +
+     [{'name': 'C05_' + fn, 'types': {'quick': [], 'thorough': conv_pairs(fn, 1)[:1]},
+       'params': {'thorough': {'MaxC': 3, 'MaxK': 1, 'Unaligned': 1}}} for fn in CONVS] +
      [{'name': 'C05_Big_' + fn, 'types': {'quick': big_pairs(fn), 'thorough': conv_pairs(fn, 2) + big_pairs(fn)},
        'params': {'quick': {'BigFrames': 600}, 'thorough': {'BigFrames': 2048}}, 'covers': ['big']} for fn in CONVS] +
      [{'name': 'C05_FloatAsFloatValue', 'types': [(a, b) for a in FLOATS for b in FLOATS], 'opts': {'abstract_fp': False}}],
      bounds={'quick': 'source and destination: every window of buffers with 1..2 channels and 0..2 frames, plus 0..C-1 extra samples on either side (unaligned lengths); sample values and witness positions symbolic; 2 type pairs per conversion; FloatAsFloat value preservation for all float32/float64 bit patterns (4 pairs)',
-             'thorough': 'all 169 instantiations at 1..2 channels, 0..2 frames; 2 pairs per conversion at 1..3 channels; 2048-frame buffers for 4-6 pairs per conversion'},
+             'thorough': 'all 169 instantiations at 1..2 channels, 0..2 frames; 1 pair per conversion at 3 channels, 0..1 frames; 2048-frame buffers for 4-6 pairs per conversion'},
      outside=['larger shapes', 'value-level behaviour of the eight fixed-point conversions (C06-C09)'])
 
 NAMED = ['NamedInt8', 'NamedInt16', 'NamedInt32', 'NamedInt64', 'NamedInt', 'NamedUint8', 'NamedUint16', 'NamedUint32',
